@@ -6,6 +6,8 @@ C02 — exotic cells: level masks, per-level hashes/depths, constructibility, Me
 Proofs/Prune.lean.  `H` (SHA-256) is an arbitrary function: no hash assumption is needed for C02.
 -/
 import TonVerif.Proofs.CellSpec
+import TonVerif.Proofs.Prune
+import TonVerif.Proofs.OrdCell
 
 namespace TonVerif.Properties.C02
 open TonVerif TonVerif.Model TonVerif.Proofs.CellSpec
@@ -41,5 +43,84 @@ example (H : Bytes → Bytes) : TreeWF H prunedMask6 := by
   refine ⟨by decide +kernel, by decide, by simp, by simp, ?_, by simp, by simp, by simp⟩
   intro _
   refine ⟨rfl, by decide +kernel, ?_, ?_⟩ <;> decide +kernel
+
+/-! ## Pruning invariance (second half of C02) -/
+open TonVerif.Proofs.Prune
+
+/-- SPEC LEVEL, all Merkle depths. Let `t'` be `t` with ANY set of subtrees replaced by pruned-branch cells
+(`PruneRel H d`: a subtree `s` under `d` enclosing Merkle cells becomes the pruned branch with level mask
+`(mask s % 2^(d-1)) ||| 2^(d-1)` carrying `hashAt s l`, `depthAt s l` for the significant `l < d`; `d` grows by
+one below every Merkle proof/update cell, so all nestings up to level 3 are covered).  Then `t'` has spec
+values and, for every level `l < d`, hash, depth and the level-mask bits below `l` are those of `t`.
+`H` is arbitrary: no collision-freeness (or any other property of SHA-256) is used. -/
+theorem c02_prune_invariant_spec (H : Bytes → Bytes) (d : Nat) (t t' : Cell) (s : Spec.SInfo)
+    (hrel : PruneRel H d t t') (hs : specInfo H t = some s) :
+    ∃ s', specInfo H t' = some s' ∧
+      ∀ l, l < d → s'.hashAt l = s.hashAt l ∧ s'.depthAt l = s.depthAt l ∧ s'.mask % 2 ^ l = s.mask % 2 ^ l :=
+  prune_invariant H d t t' s hrel hs
+
+/-- MODEL LEVEL (what the library reports): for spec-valid `t` and `t'` related by pruning at Merkle depth `d`,
+both cells can be constructed and `get_hash(l)`, `get_depth(l)` and `level_mask & (2^l - 1)` coincide for all
+`l < d`. -/
+theorem c02_prune_invariant (H : Bytes → Bytes) (d : Nat) (t t' : Cell) (wf : TreeWF H t) (wf' : TreeWF H t')
+    (hrel : PruneRel H d t t') :
+    ∃ i i', Cell.info H t = some i ∧ Cell.info H t' = some i' ∧
+      ∀ l, l < d → i'.getHash l = i.getHash l ∧ i'.getDepth l = i.getDepth l ∧ i'.mask % 2 ^ l = i.mask % 2 ^ l := by
+  obtain ⟨i, s, hi, hs, hm, hl⟩ := tree_agrees H t wf
+  obtain ⟨i', s', hi', hs', hm', hl'⟩ := tree_agrees H t' wf'
+  obtain ⟨s'', hs'', hinv⟩ := prune_invariant H d t t' s hrel hs
+  rw [hs'] at hs''; cases hs''
+  refine ⟨i, i', hi, hi', fun l hlt => ?_⟩
+  obtain ⟨h1, h2, h3⟩ := hinv l hlt
+  exact ⟨by rw [(hl' l).1, (hl l).1, h1], by rw [(hl' l).2, (hl l).2, h2], by rw [hm', hm, h3]⟩
+
+/-- The headline case `d = 1`: replacing any subtrees of `t` by pruned-branch cells carrying their hash and
+depth leaves the level-0 hash and depth of the enclosing cell `t` unchanged (apply it to every enclosing cell:
+`PruneRel` descends through kept cells). -/
+theorem c02_prune_level0 (H : Bytes → Bytes) (t t' : Cell) (wf : TreeWF H t) (wf' : TreeWF H t')
+    (hrel : PruneRel H 1 t t') :
+    ∃ i i', Cell.info H t = some i ∧ Cell.info H t' = some i' ∧ i'.getHash 0 = i.getHash 0 ∧ i'.getDepth 0 = i.getDepth 0 := by
+  obtain ⟨i, i', hi, hi', h⟩ := c02_prune_invariant H 1 t t' wf wf' hrel
+  exact ⟨i, i', hi, hi', (h 0 (by omega)).1, (h 0 (by omega)).2.1⟩
+
+/-- Every non-pruned spec-valid cell may be pruned at every Merkle depth 1..3 once `H` returns 32 bytes
+(so `PruneRel` relates every tree to each of its prunings; SHA-256 has 32-byte output). -/
+theorem c02_prunable (H : Bytes → Bytes) (h32 : ∀ x, (H x).length = 32 ∧ Bytes.WF (H x))
+    (k : Spec.Kind) (bits : Bits) (kids : List Spec.SInfo) (hk : k ≠ .pruned) (wf : NodeWF H k bits kids)
+    (d : Nat) (h1 : 1 ≤ d) (h3 : d ≤ 3) : Prunable d (Spec.node H k bits kids) :=
+  prunable_node H h32 k bits kids hk wf d h1 h3
+
+/-! Non-vacuity: a two-cell tree, its child replaced by the pruned branch (toy hash with 32-byte output). -/
+def toyH : Bytes → Bytes := fun _ => List.replicate 32 0
+def leaf0 : Cell := .mk (-1) [true, false] []
+def tree0 : Cell := .mk (-1) [true] [leaf0]
+def sLeaf0 : Spec.SInfo := Spec.node toyH .ordinary [true, false] []
+def tree0Pruned : Cell := .mk (-1) [true] [prunedCell 1 sLeaf0]
+
+theorem toyH_32 : ∀ x, (toyH x).length = 32 ∧ Bytes.WF (toyH x) := by
+  intro x; refine ⟨by simp [toyH], ?_⟩
+  intro b hb; simp [toyH] at hb; omega
+
+theorem leaf0_nodeWF : NodeWF toyH .ordinary [true, false] [] := by
+  refine ⟨by decide, by decide, by simp, ?_, by simp, by simp, by simp, by simp⟩
+  intro _ l
+  rw [node_plain toyH .ordinary _ _ (by decide)]
+  show Spec.plainDepthAt .ordinary [] (Spec.nodeMask .ordinary [true, false] []) l ≤ 1023
+  have : Spec.nodeMask .ordinary [true, false] [] = 0 := rfl
+  rw [this, TonVerif.Proofs.OrdCell.plainDepthAt_zero]
+  decide
+
+example : PruneRel toyH 1 tree0 tree0Pruned ∧ ∃ s, specInfo toyH tree0 = some s := by
+  constructor
+  · unfold tree0 tree0Pruned
+    rw [PruneRel]
+    refine Or.inr ⟨.ordinary, _, by decide, rfl, ?_⟩
+    rw [PruneRels]
+    refine ⟨_, [], rfl, ?_, by rw [PruneRels]⟩
+    unfold leaf0
+    rw [PruneRel]
+    refine Or.inl ⟨sLeaf0, by simp [specInfo, specInfos, kindOf, sLeaf0], ?_, rfl⟩
+    exact c02_prunable toyH toyH_32 .ordinary _ [] (by decide) leaf0_nodeWF 1 (by omega) (by omega)
+  · simp [tree0, leaf0, specInfo, specInfos, kindOf]
 
 end TonVerif.Properties.C02
